@@ -31,9 +31,10 @@ def findings_table():
 
 
 def seeds_table():
-    rows = ['| seed | what the change does / needs | own check on /repo itself | caught with a failing input by | caught without input by | not caught by | note |',
-            '|---|---|---|---|---|---|---|']
+    rows = ['| seed | what the change does / needs | own check on /repo itself | own check, final tree, VERIF_SEED=1 | caught with a failing input by | caught without input by | not caught by | note |',
+            '|---|---|---|---|---|---|---|---|']
     n = caught = weak = missed = own_in = own_weak = own_silent = 0
+    f_in = f_weak = f_silent = f_err = 0
     for mp in sorted(glob.glob(V + '/seeded/C*-*/meta.json')):
         sid = os.path.basename(os.path.dirname(mp))
         m = json.load(open(mp))
@@ -56,8 +57,24 @@ def seeds_table():
             own = 'VIOLATION, no input'
         else:
             own = 'silent'
-        rows.append('| %s | %s | %s | %s | %s | %s | %s |' % (sid, summ, own, ', '.join(c) or '—', ', '.join(w) or '—', ', '.join(s) or '—', note))
+        fin = (m.get('detected_by_seed1') or {}).get('checks', {})
+        fr = fin.get(sid.split('-')[0])
+        if '_error' in fin:
+            final = 'patch does not apply'
+        elif not isinstance(fr, dict):
+            final = '(not run)'
+        elif fr.get('violation') and not fr.get('no_failing_input_found'):
+            final = 'VIOLATION with input'
+        elif fr.get('violation'):
+            final = 'VIOLATION, no input'
+        else:
+            final = 'silent'
+        rows.append('| %s | %s | %s | %s | %s | %s | %s | %s |' % (sid, summ, own, final, ', '.join(c) or '—', ', '.join(w) or '—', ', '.join(s) or '—', note))
         if not note.startswith('superseded'):
+            f_in += final == 'VIOLATION with input'
+            f_weak += final == 'VIOLATION, no input'
+            f_silent += final == 'silent'
+            f_err += final == 'patch does not apply'
             own_in += own == 'VIOLATION with input'
             own_weak += own == 'VIOLATION, no input'
             own_silent += own == 'silent'
@@ -68,7 +85,9 @@ def seeds_table():
     head = ('%d live seeded changes. Scratch-copy runs (own property and the properties anchored in the touched files): %d caught '
             'with a concrete failing input by at least one check, %d only as "no-failing-input-found", %d not caught. Own property\'s '
             'check with the patch applied to /repo itself (tools/run_repo_seeds.py): %d VIOLATION with a failing input, %d VIOLATION '
-            'without input, %d silent.\n\n' % (n, caught, weak, missed, own_in, own_weak, own_silent))
+            'without input, %d silent (run for the last round only). FINAL TREE, every change, own property, VERIF_SEED=1 (the seed '
+            '`vp check` uses; scratch copies): %d VIOLATION with a failing input, %d VIOLATION without input, %d silent, %d not '
+            'applicable any more.\n\n' % (n, caught, weak, missed, own_in, own_weak, own_silent, f_in, f_weak, f_silent, f_err))
     return head + '\n'.join(rows) + '\n'
 
 
